@@ -291,3 +291,15 @@ Definition py_ndata_of_any (v : aval) : result ndata :=
 (* functools.reduce(f, l) without initial value: TypeError on an empty sequence *)
 Definition py_reduce {A} (f : A -> A -> A) (l : list A) : result A :=
   match l with [] => Err TypeError | x :: xs => Ok (fold_left f xs x) end.
+
+(* d[k] for a key that is itself a loaded JSON value: a string is looked up, a list / dict is unhashable (TypeError),
+   any other value is a key that no JSON object has (KeyError) *)
+Definition aval_get_any (d k : aval) : result aval :=
+  match d with
+  | VMap _ => match k with
+              | VStr s => aval_get d s
+              | VList _ | VMap _ => Err TypeError
+              | _ => Err KeyError
+              end
+  | _ => Err TypeError
+  end.
